@@ -639,7 +639,8 @@ def run_op(t, hname, op, T, avoid):
                 t.stale = None
         elif name == "relabel_ints":
             con = "ORelabelIntsPy" if t.name == "obj" else "ORelabelInts"
-            coq = f"({con} {clist([cnat(T.idx(i)) for i in INTS])})"
+            # the table ids of the python ints 0..n-1 (at least as many as there are variables)
+            coq = f"({con} {clist([cnat(T.idx(i)) for i in range(max(len(INTS), len(m.variables)))])})"
             inplace = op[1] if len(op) > 1 else True
             before_labels = list(m.variables)
             if inplace:
